@@ -348,6 +348,16 @@ pub struct BiffChoices {
     pub sst_decor: bool,
     /// unreferenced filler strings at the start of the SST (LABELSST indices start there)
     pub sst_pad: usize,
+    /// order of the cell records inside a sheet substream
+    pub cell_order: CellOrder,
+}
+
+#[derive(Clone, Copy, Debug, PartialEq)]
+pub enum CellOrder {
+    RowMajor,
+    ColMajor,
+    Reversed,
+    Random,
 }
 
 impl Default for BiffChoices {
@@ -363,6 +373,7 @@ impl Default for BiffChoices {
             sst_plan: SplitPlan::default(),
             sst_decor: false,
             sst_pad: 0,
+            cell_order: CellOrder::RowMajor,
         }
     }
 }
@@ -380,6 +391,7 @@ impl BiffChoices {
             sst_plan: SplitPlan { random_pct: *rng.pick(&[0, 0, 2, 10]), wide_after_cut: rng.bool(), ..Default::default() },
             sst_decor: rng.chance(1, 3),
             sst_pad: 0,
+            cell_order: *rng.pick(&[CellOrder::RowMajor, CellOrder::RowMajor, CellOrder::RowMajor, CellOrder::ColMajor, CellOrder::Reversed, CellOrder::Random]),
         }
     }
 }
@@ -598,8 +610,14 @@ pub fn encode(book: &MBook, ch: &BiffChoices, extra: &BiffExtra, rng: &mut Rng) 
             d.extend_from_slice(&[0, 0]);
             rec(&mut o, 0x0200, &d);
         }
+        // (row, first column, byte range in `o`) of every cell record group, for reordering
+        let cell_area_start = o.len();
+        let mut chunks: Vec<(u32, u32, std::ops::Range<usize>)> = vec![];
+        let mut row_recs: Vec<std::ops::Range<usize>> = vec![];
+        let mulrk = ch.mulrk && ch.cell_order == CellOrder::RowMajor;
         for r in rows {
             let cells: Vec<(u32, &MCell)> = sh.cells.range((r, 0)..=(r, u32::MAX)).map(|(p, c)| (p.1, c)).collect();
+            let row_start = o.len();
             if ch.extras && rng.bool() {
                 let mut d = vec![];
                 d.extend_from_slice(&(r as u16).to_le_bytes());
@@ -608,8 +626,10 @@ pub fn encode(book: &MBook, ch: &BiffChoices, extra: &BiffExtra, rng: &mut Rng) 
                 d.extend_from_slice(&[0xFF, 0, 0, 0, 0, 0, 0, 1, 0x0F, 0]);
                 rec(&mut o, 0x0208, &d); // Row
             }
+            row_recs.push(row_start..o.len());
             let mut i = 0;
             while i < cells.len() {
+                let chunk_start = o.len();
                 let (c, cell) = cells[i];
                 let ixfe: u16 = cell.xf.map_or(15, |x| 16 + x as u16);
                 let mut head = vec![];
@@ -672,6 +692,7 @@ pub fn encode(book: &MBook, ch: &BiffChoices, extra: &BiffExtra, rng: &mut Rng) 
                     }
                     bump(&format!("rec:{}", feat));
                     cell_feats.insert((si, (r, c)), feat);
+                    chunks.push((r, c, chunk_start..o.len()));
                     i += 1;
                     continue;
                 }
@@ -690,7 +711,7 @@ pub fn encode(book: &MBook, ch: &BiffChoices, extra: &BiffExtra, rng: &mut Rng) 
                         } else {
                             // try to extend into a MULRK run over adjacent columns
                             let mut run = vec![(ixfe, pick.1, c, format!("{:?}", pick.0))];
-                            if ch.mulrk {
+                            if mulrk {
                                 let mut j = i + 1;
                                 while j < cells.len() && cells[j].0 == cells[j - 1].0 + 1 && cells[j].1.formula.is_none() {
                                     if let Val::Num(y) = cells[j].1.val {
@@ -721,6 +742,7 @@ pub fn encode(book: &MBook, ch: &BiffChoices, extra: &BiffExtra, rng: &mut Rng) 
                                     bump(&format!("rec:num:MULRK:{}", e));
                                 }
                                 bump("rec:MULRK");
+                                chunks.push((r, c, chunk_start..o.len()));
                                 i += run.len();
                                 continue;
                             }
@@ -765,8 +787,28 @@ pub fn encode(book: &MBook, ch: &BiffChoices, extra: &BiffExtra, rng: &mut Rng) 
                 }
                 bump(&format!("rec:{}", feat));
                 cell_feats.insert((si, (r, c)), feat);
+                chunks.push((r, c, chunk_start..o.len()));
                 i += 1;
             }
+        }
+        if ch.cell_order != CellOrder::RowMajor && chunks.len() > 1 {
+            // ROW records first (in row order), then the cell record groups in the chosen order
+            match ch.cell_order {
+                CellOrder::ColMajor => chunks.sort_by_key(|c| (c.1, c.0)),
+                CellOrder::Reversed => chunks.reverse(),
+                _ => rng.shuffle(&mut chunks),
+            }
+            let mut area = Vec::with_capacity(o.len() - cell_area_start);
+            for r in &row_recs {
+                area.extend_from_slice(&o[r.clone()]);
+            }
+            for c in &chunks {
+                area.extend_from_slice(&o[c.2.clone()]);
+            }
+            debug_assert_eq!(area.len(), o.len() - cell_area_start);
+            o.truncate(cell_area_start);
+            o.extend_from_slice(&area);
+            bump(&format!("cell_order:{:?}", ch.cell_order));
         }
         // merged cells, 1026 per record at most
         for chunk in sh.merges.chunks(if ch.extras { 1026 } else { 3 }) {
